@@ -115,9 +115,9 @@ func runC19(c *ctxT) {
 	if c.Thorough {
 		n = 120000
 	}
-	erdmaOS := c.Batch%2 == 0 // batches with the OS erdma capability set only exercise the daemon half (see DESIGN: device plugin)
+	erdmaOS := c.Batch%2 == 0 // half of the batches run with the OS erdma capability set (the hook constructor keeps the device plugin from starting)
 	r.Rule = "generated instance-type vectors (adapters 1..32, total >= adapters, IPv4 per adapter 1..50, IPv6 in {0, =IPv4, other}, trunk support, ERI 0..4) x configurations (max/min ENI, pool sizes 0..2x capacity incl. min > max, ip stack, trunk, erdma, exclusive-ENI label, default ratio/shift) through GetLimit/GetLimitFromAnno -> checkInstance + getPoolConfig and -> controller ReconcileNode -> daemon-side nodeReconcile -> controller (annotations, allocatable). distinct = distinct (adapters bucket, ipv6 class, trunk, eri, stack, trunk cfg, erdma cfg, exclusive) classes"
-	r.Assumptions = []string{"default capacity ratio (1) and shift (0); negative sizes are outside the domain", "daemon-side ERDMA flavour is not exercised: enabling it starts the device plugin, which exits the process without a kubelet socket"}
+	r.Assumptions = []string{"default capacity ratio (1) and shift (0); negative sizes are outside the domain", "the ERDMA device plugin itself is not started (it needs the kubelet socket); the flavor it would serve is judged"}
 	if erdmaOS {
 		nodecap.SetNodeCapabilities(nodecap.NodeCapabilityERDMA, "true")
 	}
@@ -151,9 +151,7 @@ func runC19(c *ctxT) {
 			r.Violate("C19.limits-differ-from-instance-type", "provider", fmt.Sprintf("limits %+v (erdma %d) do not match instance type %+v (member %d, erdma %d)", *lim, lim.ERDMARes(), t, t.member(), t.erdma()), rep)
 		}
 		c19Daemon(c, rng, t, lim, rep)
-		if !erdmaOS {
-			c19Controllers(c, rng, t, id, cloud, rep)
-		}
+		c19Controllers(c, rng, t, id, cloud, rep)
 		if i < 2 {
 			r.Sample(rep)
 		}
